@@ -42,6 +42,16 @@ def build_fa(spec):
     def lab(a):
         return Epsilon() if a is None else Symbol(a)
     hist = spec.get("history")
+    if not hist and spec.get("ctor") and spec["kind"] != "dfa":
+        # everything handed to the constructor: a transition function built beforehand, start and final states as arguments;
+        # `states` may leave out start / final states (the constructor adds them itself)
+        from pyformlang.finite_automaton import NondeterministicTransitionFunction
+        tf = NondeterministicTransitionFunction()
+        for s, a, t in spec["trans"]:
+            tf.add_transition(State(s), lab(a), State(t))
+        omit = set(map(vkey, spec["ctor"].get("omit", [])))
+        return cls(states={State(s) for s in spec["states"] if vkey(s) not in omit}, input_symbols={Symbol(a) for a in spec["symbols"]},
+                   transition_function=tf, start_state={State(s) for s in spec["starts"]}, final_states={State(s) for s in spec["finals"]})
     if not hist:
         for s, a, t in spec["trans"]:
             fa.add_transition(State(s), lab(a), State(t))
@@ -219,9 +229,14 @@ def rand_fa(rng, kind=None, profile=None, names="plain", max_states=5, max_syms=
     if history:
         return {"kind": kind, "states": states, "symbols": syms + extra_sym, "trans": tl,
                 "starts": starts, "finals": finals, "profile": profile, "names": names, "history": history}
-    return {"kind": kind, "states": states, "symbols": syms + extra_sym,
+    spec = {"kind": kind, "states": states, "symbols": syms + extra_sym,
             "trans": sorted(tl, key=vkey),
             "starts": starts, "finals": finals, "profile": profile, "names": names}
+    if kind != "dfa" and rng.random() < 0.15:
+        # built through the constructor arguments instead of add_transition / add_start_state / add_final_state
+        sf = starts + [f for f in finals if f not in starts]
+        spec["ctor"] = {"omit": [x for x in sf if rng.random() < 0.6]}
+    return spec
 
 
 def words_upto(syms, maxlen):
